@@ -82,6 +82,18 @@ def model_attr(t):
     return None
 
 
+def pred_text(op, d):
+    """Canonical text of  d <op> 0  (sign-normalised so that the first monomial has a positive coefficient)."""
+    op = {'Eq': '==', 'NotEq': '!=', 'Lt': '<', 'LtE': '<=', 'Gt': '>', 'GtE': '>='}.get(op, op)
+    if not d:
+        return {'==': 'true', '!=': 'false', '<': 'false', '<=': 'true', '>': 'false', '>=': 'true'}[op]
+    lead = sorted(d.items())[0][1]
+    if lead < 0:
+        d = pneg(d)
+        op = {'<': '>', '<=': '>=', '>': '<', '>=': '<=', '==': '==', '!=': '!='}[op]
+    return '%s %s 0' % (pshow(d), op)
+
+
 class Mono:
     """coef * var  (var None = constant) optionally summed: sumvar in {None,'q','k',...}, preds tuple of strings."""
     __slots__ = ('coef', 'var', 'sumvar', 'preds')
@@ -346,16 +358,11 @@ class Canon:
                 if neg:
                     return self.pred(CMP(neg, inner[2], inner[3]))
             return 'not(%s)' % self.pred(inner)
+        if g[0] == 'cmp' and g[1] in ('Is', 'IsNot', 'Eq', 'NotEq') and self.is_pair(g[2]) and self.is_pair(g[3]):
+            a, b = sorted([self.pairname(g[2]), self.pairname(g[3])])
+            return ('same(%s,%s)' if g[1] in ('Is', 'Eq') else 'not same(%s,%s)') % (a, b)
         if g[0] == 'cmp' and g[1] in ('Eq', 'NotEq', 'Lt', 'LtE', 'Gt', 'GtE'):
-            d = psub(self.poly(g[2]), self.poly(g[3]))
-            op = {'Eq': '==', 'NotEq': '!=', 'Lt': '<', 'LtE': '<=', 'Gt': '>', 'GtE': '>='}[g[1]]
-            if not d:
-                return {'==': 'true', '!=': 'false', '<': 'false', '<=': 'true', '>': 'false', '>=': 'true'}[op]
-            lead = sorted(d.items())[0][1]
-            if lead < 0:
-                d = pneg(d)
-                op = {'<': '>', '<=': '>=', '>': '<', '>=': '<=', '==': '==', '!=': '!='}[op]
-            return '%s %s 0' % (pshow(d), op)
+            return pred_text(g[1], psub(self.poly(g[2]), self.poly(g[3])))
         if g[0] == 'bool':
             return '(' + (' %s ' % g[1]).join(sorted(self.pred(x) for x in g[2])) + ')'
         if g[0] == 'call' and g[1] == S('hasattr') and len(g[2]) == 2 and g[2][1][0] == 'const':
@@ -363,6 +370,11 @@ class Canon:
         if g[0] == 'const':
             return 'true' if g[1] else 'false'
         raise Unknown('predicate ' + show(g)[:80])
+
+    def is_pair(self, t):
+        if t[0] == 'bvar':
+            return self.names.get(t[1]) in ('p', 'q')
+        return t[0] == 'idx' and t[2][0] == 'carried'
 
     def conj(self, g):
         if g == TRUE:
@@ -447,6 +459,8 @@ class Canon:
             return [Mono(pneg(m.coef), m.var, m.sumvar, m.preds) for m in self.lin(t[2])]
         if k == 'sum':
             return self.linchain(t[1], t[2])
+        if k in ('prefix', 'carried'):
+            return self.linprefix(t)
         if k == 'ite':
             # ite(c, A, B) with A, B linear:  B + [c]*(A-B)  -- only the guard-as-predicate form on sums is supported
             raise Unknown('conditional linear expression ' + show(t)[:80])
@@ -535,12 +549,55 @@ class Canon:
         finally:
             self.names = saved
 
+    def linprefix(self, t):
+        """Running value of an accumulator read inside its own for-loop:  pre + sum over the elements visited so far
+        (inclusive when the read follows this iteration's accumulation).  Position order => predicate on pos()."""
+        from .absint import collect_acc
+        name, lid = t[1], t[2]
+        inclusive = t[0] == 'prefix'
+        loop = self.it.loopinfo.get(lid)
+        if loop is None or loop.kind != 'for':
+            raise Unknown('running value of %s outside a for-loop' % name)
+        b = loop.binder
+        kk = self.classify(b)
+        if kk[0] != 'elem' or self.names.get(b[1]) != 'p':
+            raise Unknown('running value over a loop that is not the quantified pair loop')
+        entries = collect_acc(loop.body, name, ((b, TRUE),))
+        if not entries or any(en[0] not in ('add', 'sub') for en in entries):
+            raise Unknown('running value of a non-additive accumulator ' + name)
+        out = self.lin(loop.pre[name]) if name in loop.pre else []
+        row = b[3]
+        rs = self.classify(row)[1]
+        saved = dict(self.names)
+        try:
+            self.names[b[1]] = 'q'
+            base = self.rowpred(rs, 'q', self.poly_named(saved, row), row)
+            base.append('pos(q) - pos(p) %s 0' % ('<=' if inclusive else '<'))
+            for op, _, v, ch, _ in entries:
+                if len(ch) != 1:
+                    raise Unknown('nested running accumulation')
+                preds = base + self.conj(ch[0][1])
+                for m in self.lin(v):
+                    if m.sumvar:
+                        raise Unknown('nested sums')
+                    c = m.coef if op == 'add' else pneg(m.coef)
+                    out.append(Mono(c, m.var, 'q', tuple(preds)))
+        finally:
+            self.names = saved
+        return out
+
+    def poly_named(self, names, row):
+        nm = names.get(row[1])
+        if nm is None:
+            raise Unknown('row binder unnamed')
+        return patom(nm)
+
     def rowpred(self, sort, q, idxpoly, row):
         if sort in ROWPRED:
-            return ['%s == 0' % self._eqtxt(padd(patom('%s(%s)' % (ROWPRED[sort], q)), pneg(idxpoly)))]
+            return [pred_text('==', padd(patom('%s(%s)' % (ROWPRED[sort], q)), pneg(idxpoly)))]
         if sort == 'R':
             # rank_lists[e] holds the pairs of student rank e+1
-            return ['%s == 0' % self._eqtxt(psub(patom('rs(%s)' % q), padd(idxpoly, pconst(1))))]
+            return [pred_text('==', psub(patom('rs(%s)' % q), padd(idxpoly, pconst(1))))]
         raise Unknown('row sort ' + str(sort))
 
     def _eqtxt(self, d):
@@ -588,8 +645,12 @@ class Canon:
             raise Unknown('scan key update not recognised')
         val = upd[0][2]
         elem = I(row, ('carried', idxvar, wid))
-        if not (val[0] == 'attr' and val[1] == elem):
-            raise Unknown('scan key is not an attribute of row[index]')
+        nxt = I(row, ('prefix', idxvar, wid, True))      # row[index] read after `index += 1`
+        if not (val[0] == 'attr' and val[1] == nxt):
+            raise Unknown('scan key is not an attribute of row[index] read after the index was advanced')
+        kg = upd[0][3][-1][1]
+        if kg != CMP('Lt', ('prefix', idxvar, wid, True), CALL(S('len'), [row])):
+            raise Unknown('scan key update is not guarded by index < len(row)')
         keyattr = val[2]
         # order of statements: the accumulations on row[idx] must come before the increment (checked by the caller
         # through the element term: it must be row[idx@loop] evaluated before idx changes); the key update after it.
@@ -616,8 +677,7 @@ class Canon:
             raise Unknown('scan initial key is not a constant')
         first_ok = c0[1] <= 1 if cmpop == 'LtE' else c0[1] < 1
         k = '%s(q)' % PAIRATTR[keyattr][0]
-        p = self.pred(CMP(cmpop, S('@K'), aim)).replace('@K', k)
-        preds.append(p)
+        preds.append(pred_text(cmpop, psub(patom(k), self.poly(aim))))
         if not first_ok:
             preds.append('scan-start(%d)' % c0[1])
         return preds
@@ -723,11 +783,7 @@ class RefParser:
         assert isinstance(n, ast.Compare) and len(n.ops) == 1
         d = psub(self.poly(n.left), self.poly(n.comparators[0]))
         op = {ast.Eq: '==', ast.NotEq: '!=', ast.Lt: '<', ast.LtE: '<=', ast.Gt: '>', ast.GtE: '>='}[type(n.ops[0])]
-        lead = sorted(d.items())[0][1]
-        if lead < 0:
-            d = pneg(d)
-            op = {'<': '>', '<=': '>=', '>': '<', '>=': '<=', '==': '==', '!=': '!='}[op]
-        return '%s %s 0' % (pshow(d), op)
+        return pred_text(op, d)
 
     def lin(self, n):
         if self.isvar(n):
